@@ -176,6 +176,13 @@ def build():
     sb_ = fn_body(ps, "next", after="Iterator for ParsedSuffixIter")
     one(r"let\s+res\s*=\s*name\.deref_octets\(\);\s*if\s+!name\.parent\(\)\s*\{\s*self\.name\s*=\s*None;?\s*\}\s*Some\(res\)", sb_, "ParsedSuffixIter::next is parent()")
     defs.append(("suffix_iter_is_parent", "bool", "true"))
+    # UncertainName: == only within one variant, Hash over the labels
+    un = strip_comments(read("src/base/name/uncertain.rs"))
+    ub = fn_body(impl_after(un, r"impl<Octets,\s*Other>\s*PartialEq<UncertainName<Other>>\s*for\s+UncertainName<Octets>\s*where[^{]*\{", "PartialEq for UncertainName"), "eq")
+    one(r"\(Absolute\(l\),\s*Absolute\(r\)\)\s*=>\s*l\.eq\(r\)\s*,\s*\(Relative\(l\),\s*Relative\(r\)\)\s*=>\s*l\.eq\(r\)\s*,\s*_\s*=>\s*false", ub, "UncertainName::eq arms")
+    uh = fn_body(impl_after(un, r"impl<Octets:\s*AsRef<\[u8\]>>\s*hash::Hash\s+for\s+UncertainName<Octets>\s*\{", "Hash for UncertainName"), "hash")
+    one(r"for\s+item\s+in\s+self\.iter_labels\(\)\s*\{\s*item\.hash\(state\);?\s*\}", uh, "UncertainName::hash feeds every label")
+    defs.append(("uncertain_eq_same_variant_only", "bool", "true"))
     ch = strip_comments(read("src/base/name/chain.rs"))
     if re.search(r"fn\s+as_flat_slice", ch):
         raise GenError("Chain gained as_flat_slice")
@@ -491,7 +498,7 @@ def build():
                 raise GenError("%s: neither a Hash impl nor derive(Hash)" % ty)
             hs = list(order)   # derive: every field, in declaration order
         # CanonicalOrd and Ord
-        rx = re.compile(r"(?:u32::from\()?self\.([a-z_]+)\)?((?:\.into_int\(\)|\.as_ref\(\))*)\s*\.\s*(cmp|canonical_cmp|name_cmp|composed_cmp|lowercase_composed_cmp|partial_cmp)\(\s*&?\s*(?:u32::from\()?(self|other)\.([a-z_]+)")
+        rx = re.compile(r"(?:u32::from\()?self\.([a-z_]+)\)?((?:\s*\.into_int\(\)|\s*\.as_ref\(\))*)\s*\.\s*(cmp|canonical_cmp|name_cmp|composed_cmp|lowercase_composed_cmp|partial_cmp)\(\s*&?\s*(?:u32::from\()?(self|other)\.([a-z_]+)")
         def chain(body, what):
             got = []
             for mm in rx.finditer(body):
@@ -510,10 +517,63 @@ def build():
             os_ = [f for f, _ in cs]
         else:
             os_ = [f for f, _ in chain(ob, ty + "::cmp")]
+        # ---- comparison modes of every step of Ord, PartialOrd and CanonicalOrd:
+        # 1 integer order, 2 serial number arithmetic (Serial / Timestamp
+        # partial_cmp), 3 name_cmp, 4 lowercase_composed_cmp, 5 composed_cmp,
+        # 6 CharStr cmp (lower-cased octets), 7 length first then octets,
+        # 8 plain octet order
+        ftype = dict(flds)
+        def mode(f, meth, raw, what):
+            k = kinds[order.index(f)]
+            t = ftype[f]
+            if k in (1, 2, 3):
+                if t in ("Serial", "Timestamp"):
+                    if "into_int()" in raw or "u32::from(" in raw or meth == "canonical_cmp":
+                        return 1
+                    if meth == "partial_cmp":
+                        return 2
+                    raise GenError("%s: %s of type %s compared with %s" % (what, f, t, meth))
+                if meth in ("cmp", "partial_cmp"):
+                    return 1
+            elif k in (4, 5):
+                return {"name_cmp": 3, "lowercase_composed_cmp": 4, "composed_cmp": 5}.get(meth) or _bad(what, f, meth)
+            elif k == 6:
+                return {"cmp": 6, "partial_cmp": 6, "canonical_cmp": 7}.get(meth) or _bad(what, f, meth)
+            elif k in (7, 9):
+                if meth in ("cmp", "partial_cmp", "canonical_cmp"):
+                    return 8
+            elif k == 8:
+                return {"cmp": 8, "partial_cmp": 8, "canonical_cmp": 7}.get(meth) or _bad(what, f, meth)
+            _bad(what, f, meth)
+        def _bad(what, f, meth):
+            raise GenError("%s: field %s compared with %s" % (what, f, meth))
+        def steps(body, what):
+            out_ = []
+            for mm in rx.finditer(body):
+                if mm.group(4) != "other" or mm.group(1) != mm.group(5):
+                    raise GenError("%s compares self.%s with %s.%s" % (what, mm.group(1), mm.group(4), mm.group(5)))
+                out_.append((order.index(mm.group(1)), mode(mm.group(1), mm.group(3), mm.group(0), what)))
+            if len(out_) != len(re.findall(r"\.(?:cmp|partial_cmp|canonical_cmp|name_cmp|composed_cmp|lowercase_composed_cmp)\(", body)):
+                raise GenError("%s: a comparison step was not recognised" % what)
+            return out_
+        c_steps = steps(cb, ty + "::canonical_cmp")
+        o_steps = c_steps if re.search(r"self\.canonical_cmp\(\s*other\s*\)", ob) else steps(ob, ty + "::cmp")
+        phdr = gen + r"PartialOrd<%s<[^>]*>>\s*for\s+%s<[^>]*>\s*(?:where[^{]*)?\{" % (ty, ty)
+        pb_ = fn_body(impl_after(src, phdr, "PartialOrd for " + ty), "partial_cmp")
+        if re.fullmatch(r"\s*Some\(\s*self\.canonical_cmp\(\s*other\s*\)\s*\)\s*", pb_):
+            p_steps = c_steps
+        elif re.fullmatch(r"\s*Some\(\s*self\.cmp\(\s*other\s*\)\s*\)\s*", pb_):
+            p_steps = o_steps
+        else:
+            p_steps = steps(pb_, ty + "::partial_cmp")
+        def plist(st):
+            return "[" + "; ".join("(%d, %d)" % x for x in st) + "]%N"
+        ord_rows.append("(%d, (%s, %s, %s))" % (code, plist(o_steps), plist(p_steps), plist(c_steps)))
         row = "(%d, (%s, (%s, %s, %s, %s)))" % (code, nlist(kinds), nlist(idx_list([a for a, _ in es], order, ty + "::eq")),
               nlist(idx_list(os_, order, ty + "::cmp")), nlist(idx_list([f for f, _ in cs], order, ty + "::canonical_cmp")),
               nlist(idx_list(hs, order, ty + "::hash")))
         return row
+    ord_rows = []
     rows = [
         type_table("src/rdata/rfc1035/mx.rs", "Mx", 15, [2, 4]),
         type_table("src/rdata/rfc1035/soa.rs", "Soa", 6, [4, 4, 3, 3, 3, 3, 3]),
@@ -536,6 +596,22 @@ def build():
         type_table("src/rdata/naptr.rs", "Naptr", 35, [2, 2, 6, 6, 6, 4]),
     ]
     defs.append(("rd_table", "list (N * (list N * (list N * list N * list N * list N)))", "[" + "; ".join(rows) + "]%N"))
+    defs.append(("rd_ord_table", "list (N * (list (N * N) * list (N * N) * list (N * N)))", "[" + "; ".join(ord_rows) + "]%N"))
+    # the inner types the modes rely on
+    for ty in ("Nsec3Salt", "OwnerHash"):
+        for tr, meth in (("PartialOrd<U>", "partial_cmp"), ("Ord", "cmp")):
+            hdr_ = (r"impl<T,\s*U>\s*PartialOrd<U>\s*for\s+%s<T>\s*where[^{]*\{" % ty) if tr.startswith("Partial") else (r"impl<T:\s*AsRef<\[u8\]>\s*\+\s*\?Sized>\s*Ord\s+for\s+%s<T>\s*\{" % ty)
+            one(r"^\s*self\.0\.as_ref\(\)\.%s\(\s*other(?:\.0)?\.as_ref\(\)\s*\)\s*$" % meth, fn_body(impl_after(n3, hdr_, "%s for %s" % (tr, ty)), meth), "%s::%s is plain octet order" % (ty, meth))
+    ca = strip_comments(read("src/rdata/caa.rs"))
+    one(r"^\s*self\.0\.cmp\(\s*&other\.0\s*\)\s*$", fn_body(impl_after(ca, r"impl<O:\s*AsRef<\[u8\]>>\s*Ord\s+for\s+CaaTag<O>\s*\{", "Ord for CaaTag"), "cmp"), "CaaTag::cmp is CharStr::cmp")
+    one(r"^\s*self\.0\.partial_cmp\(\s*&other\.0\s*\)\s*$", fn_body(impl_after(ca, r"impl<Octs,\s*OtherOcts>\s*PartialOrd<CaaTag<OtherOcts>>\s*for\s+CaaTag<Octs>\s*where[^{]*\{", "PartialOrd for CaaTag"), "partial_cmp"), "CaaTag::partial_cmp is CharStr::partial_cmp")
+    for tr, meth in (("PartialOrd", "partial_cmp"), ("Ord", "cmp"), ("CanonicalOrd", "canonical_cmp")):
+        hdr_ = r"impl<O:\s*AsRef<\[u8\]>>\s*Ord\s+for\s+RtypeBitmap<O>\s*\{" if tr == "Ord" else r"impl<O,\s*OO>\s*%s<RtypeBitmap<OO>>\s*for\s+RtypeBitmap<O>\s*where[^{]*\{" % tr
+        m2 = "cmp" if tr == "CanonicalOrd" else meth
+        one(r"^\s*self\.0\.as_ref\(\)\.%s\(\s*other\.0\.as_ref\(\)\s*\)\s*$" % m2, fn_body(impl_after(dn, hdr_, "%s for RtypeBitmap" % tr), meth), "RtypeBitmap::%s is octet order" % meth)
+    cpo = fn_body(impl_after(cs, r"impl<T,\s*U>\s*PartialOrd<U>\s*for\s+CharStr<T>\s*where[^{]*\{", "PartialOrd for CharStr"), "partial_cmp")
+    one(r"\.map\(u8::to_ascii_lowercase\)\s*\.partial_cmp\(\s*other\.as_ref\(\)\.iter\(\)\.map\(u8::to_ascii_lowercase\)\s*\)", cpo, "CharStr::partial_cmp lower-cases both sides")
+    defs.append(("ord_inner_types_ok", "bool", "true"))
     # PartialOrd against Ord where they are written separately and Ord is the
     # canonical order: serial number arithmetic / plain octet order of
     # length-prefixed pieces / name order in partial_cmp would disagree with cmp
@@ -564,7 +640,24 @@ def build():
         defs.append(("nsec3_partial_len_first", "bool", "false"))
     ob = fn_body(impl_after(n3, r"impl<Octs:\s*AsRef<\[u8\]>>\s*Ord\s+for\s+Nsec3<Octs>\s*\{", "Ord for Nsec3"), "cmp")
     one(r"^\s*self\.canonical_cmp\(\s*other\s*\)\s*$", ob, "Nsec3::cmp is canonical_cmp")
+    # Hash of the types outside rd_table: every struct field, in declaration order
+    def hash_all(rel, ty, code, skip=()):
+        src = strip_comments(read(rel))
+        m_ = one(r"pub\s+struct\s+%s<[^{]*\{" % ty, src, "struct %s" % ty)
+        body = strip_attrs(block_from(src, m_.end() - 1))
+        order = [f for f, _ in re.findall(r"(?:pub(?:\([a-z]+\))?\s+)?([a-z_][a-z_0-9]*)\s*:\s*([^,\n]+?)\s*,", body) if f not in skip]
+        hb = fn_body(impl_after(src, r"impl<[^{;]*?>\s*(?:[a-z]+::)?Hash\s+for\s+%s<[^>]*>\s*(?:where[^{]*)?\{" % ty, "Hash for " + ty), "hash")
+        hs = re.findall(r"self\.([a-z_]+)(?:\.as_ref\(\)|\.into_int\(\))*\.hash\(state\)", hb)
+        if len(hs) != len(re.findall(r"\.hash\(state\)", hb)):
+            raise GenError("%s::hash: unrecognised feed" % ty)
+        return "(%d, (%d, %s))" % (code, len(order), nlist(idx_list(hs, order, ty + "::hash")))
+    extra = [hash_all("src/rdata/tsig.rs", "Tsig", 250), hash_all("src/rdata/svcb/rdata.rs", "SvcbRdata", 64, skip=("marker",)),
+             hash_all("src/rdata/ipseckey.rs", "Ipseckey", 45)]
+    one(r"^\s*self\.octets\.as_ref\(\)\.hash\(state\)\s*$", fn_body(impl_after(op, r"impl<Octs:\s*AsRef<\[u8\]>\s*\+\s*\?Sized>\s*hash::Hash\s+for\s+Opt<Octs>\s*\{", "Hash for Opt"), "hash"), "Opt::hash")
+    extra.append("(41, (1, [0]%N))")
+    defs.append(("rd_extra_hash", "list (N * (N * list N))", "[" + "; ".join(extra) + "]%N"))
     tx = strip_comments(read("src/rdata/rfc1035/txt.rs"))
+    one(r"^\s*self\.0\.as_ref\(\)\.hash\(state\)\s*$", fn_body(impl_after(tx, r"impl<Octs:\s*AsRef<\[u8\]>>\s*hash::Hash\s+for\s+Txt<Octs>\s*\{", "Hash for Txt"), "hash"), "Txt::hash")
     b = impl_after(tx, r"impl<Octs,\s*Other>\s*CanonicalOrd<Txt<Other>>\s*for\s+Txt<Octs>\s*where[^{]*\{", "Txt::canonical_cmp")
     one(r"self\.0\.as_ref\(\)\.cmp\(\s*other\.0\.as_ref\(\)\s*\)", b, "Txt::canonical_cmp is wire octets order")
     defs.append(("txt_canonical_is_wire_cmp", "bool", "true"))
